@@ -91,7 +91,9 @@ class Element:
         self.model.memo[self.name] = {}
 
     def term(self, time="t"):
-        return "model.memoize('{}',{})".format(self.name, time)
+        # repr() quotes and escapes the name: a name with an apostrophe is still one string literal, and a backslash
+        # sequence in a name is not reinterpreted (it could otherwise denote another element)
+        return "model.memoize({},{})".format(repr(str(self.name)), time)
 
     @property
     def equation(self):
